@@ -89,18 +89,26 @@ def monitor(case, il, sl):
             if stop or any(l.startswith("res err") for l in g):
                 break
     # wire check
-    states = [(k, l) for k, (o, g) in enumerate(tr.al) for l in g if l.startswith("state ")]
-    for k, l in states:
+    # everything handed to the transport so far + what is still buffered must be whole frames
+    written = b""
+    states = []
+    for k, (o, g) in enumerate(tr.al):
+        for l in g:
+            if l.startswith("wrote ") and l != "wrote -":
+                written += bytes.fromhex(l.split()[1])
+            elif l.startswith("state "):
+                states.append((k, l, written))
+    for k, l, wr in states:
         outhex = l.split("out=")[1]
-        out = bytes.fromhex(outhex) if outhex != "-" else b""
+        out = wr + (bytes.fromhex(outhex) if outhex != "-" else b"")
         try:
             frs, rest = amqp.split_frames(out)
         except ValueError as e:
-            return ("outbound buffer is not a sequence of frames: %s" % e, "c07-wire")
+            return ("outbound stream (written + buffered) is not a sequence of frames: %s" % e, "c07-wire")
         if l.startswith("state ClientException"):
             # client submissions are opaque, but the last queued frame must be the exception's Close
             if not frs or rest:
-                continue   # partially written already
+                continue
             ft, ch, payload = frs[-1]
             if ft != 1 or ch != 0 or amqp.method_ids(payload) != (10, 50):
                 return ("after a client exception the last queued frame is not Connection.Close: type %d channel %d ids %s" % (ft, ch, amqp.method_ids(payload) if ft == 1 else None), "c07-wire")
